@@ -10,7 +10,10 @@ from ..core import HarnessError, Violation
 
 ID = "C01"
 LEVEL = "exploration"
-RULE = ("Hypothesis draws a SchemaSpec that is satisfiable by construction, hereditarily (13 types, "
+RULE = ("exhaustive part: float ranges among the subnormal numbers and at both ends of the double range (single-number ranges "
+        "and ranges wider than the largest float included) and 14 regex formats with explicit counts above the generator's "
+        "repeat limit inside other quantifiers, bare and inside list / dict / any, each under the lowest, highest and a middle "
+        "outcome of every draw. Generated part: Hypothesis draws a SchemaSpec that is satisfiable by construction, hereditarily (13 types, "
         "depth<=3, value+constraint combinations, all list forms x len forms, int bounds up to "
         "+-2**70, str/list lengths beyond STR_LEN_MAX/LIST_LEN_MAX, precision grids with a grid "
         "point inside [min,max], regex nodes, alias; plus derived schemas a|b, d1+d2, "
